@@ -51,10 +51,10 @@ META = {
 
 THEOREMS = [
     "C34_one_record_per_dispatch", "C34_schema_valid", "C34_status_matches_client", "C34_full_message",
-    "C34_error_message_nonempty", "C34_stream_id_shared", "C34_stream_id_distinct",
+    "C34_error_message_nonempty", "C34_stream_id_shared", "C34_stream_id_distinct", "C34_timestamp_valid",
 ]
-TIE = ["schema_tie", "shape_tie", "emit_keys_tie", "sentinel_tie", "telemetry_tie", "recover_tie", "C34_source_schema_valid", "C34_source_status_matches_client", "C34_source_full_message"]
-REFUTED = ["C34_old_empty_message_schema_invalid", "C34_old_http_message_truncated", "C34_old_sentinel_stream_invalid", "C34_old_escape_logged_ok"]
+TIE = ["schema_tie", "shape_tie", "emit_keys_tie", "sentinel_tie", "telemetry_tie", "recover_tie", "format_time_tie", "C34_source_schema_valid", "C34_source_status_matches_client", "C34_source_full_message", "C34_source_timestamp_valid"]
+REFUTED = ["C34_old_empty_message_schema_invalid", "C34_old_http_message_truncated", "C34_old_sentinel_stream_invalid", "C34_old_escape_logged_ok", "C34_nearest_millisecond_timestamp_invalid"]
 
 HDR = "From Coq Require Import List NArith ZArith Bool.\nFrom VGI Require Import Regex M_Wire M_AccessLog.\nImport ListNotations.\nOpen Scope N_scope.\n"
 
@@ -63,6 +63,25 @@ FAULT_BAD_RETURN = ("AttributeError", "'int' object has no attribute 'call_state
 
 def fault_header(method: str) -> tuple[str, str]:
     return ("TypeError", f"Method '{method}' declares header type but returned header=None")
+
+
+def _epoch(y: int, mo: int, d: int, h: int = 0, mi: int = 0, s: int = 0) -> int:
+    import calendar
+
+    return calendar.timegm((y, mo, d, h, mi, s, 0, 0, 0))
+
+
+# seconds: epoch, second / minute / hour / day / month / year ends and starts, leap days (and the missing one of 2100),
+# the 32-bit boundary, the last second of year 9999
+SECONDS = [
+    0, 1, 59, 60, 3599, 3600, 86399, 86400, _epoch(1999, 12, 31, 23, 59, 59), _epoch(2000, 1, 1), _epoch(2000, 2, 29, 12), _epoch(2023, 12, 31, 23, 59, 59),
+    _epoch(2024, 1, 1), _epoch(2024, 2, 28, 23, 59, 59), _epoch(2024, 2, 29), _epoch(2024, 2, 29, 23, 59, 59), _epoch(2024, 3, 1), _epoch(2026, 9, 22, 11, 31, 33),
+    2**31 - 1, 2**31, _epoch(2100, 2, 28, 23, 59, 59), _epoch(2100, 3, 1), _epoch(9999, 12, 31, 23, 59, 58),
+]
+MICROS = [0, 1, 499, 500, 501, 999, 1000, 1499, 1500, 499_499, 499_500, 499_999, 500_000, 998_999, 999_000, 999_499, 999_500, 999_501, 999_999]
+BOUNDARY_US = [s * 1_000_000 + m for s in (_epoch(2023, 12, 31, 23, 59, 59), _epoch(2024, 2, 29, 23, 59, 59), 1_700_000_000, 59) for m in (0, 499, 500, 999_499, 999_500, 999_999)]
+# POSIX TZ strings (no tzdata needed): UTC, a negative and a large positive UTC offset
+TZS = ["UTC", "EST5EDT", "<+14>-14"]
 
 
 def translate(ctx: Any) -> None:
@@ -266,7 +285,9 @@ def run(ctx: Any, only: dict[str, Any] | None = None) -> None:
     ctx.rule = (
         "case = one history (1-4 items: script on an interpreter program | __describe__ | raw refused request) x transport {http, pipe} "
         "x access-logger level {INFO, DEBUG} x formatter cap {1 MiB, 1100, 300} x http max_response_bytes {None, 1} x http call-state cache "
-        "{warm, disabled, cold second app sharing token_key, one-entry cache evicted before every continuation}; scenarios cover every "
+        "{warm, disabled, cold second app sharing token_key, one-entry cache evicted before every continuation} x record-creation instant "
+        "{real clock, pinned boundary instants}; plus a sweep of creation instants (second/minute/day/year/leap boundaries x sub-second offsets "
+        "0..999999 us incl. 999499/999500/999999, random instants) x TZ env {UTC, EST5EDT, +14} re-stamped onto captured records and sent through the real formatter; scenarios cover every "
         "model arm and message class, the rest is seeded random; distinct by (transport, cfg, items); non-trivial = at least one request was dispatched"
     )
     histories: list[tuple[str, list[Any]]] = scenario_items()
@@ -278,15 +299,24 @@ def run(ctx: Any, only: dict[str, Any] | None = None) -> None:
     cases: list[tuple[str, str]] = []
     case_meta: list[dict[str, Any]] = []
 
-    def one(kind: str, cfg: dict[str, Any] | None, debug: bool, cap: int, items: list[Any]) -> None:
-        res = drv.run_history(kind, cfg, debug, cap, items)
+    templates: dict[str, Any] = {}
+    run_no = [0]
+
+    def one(kind: str, cfg: dict[str, Any] | None, debug: bool, cap: int, items: list[Any], instant_us: int | None = -1) -> None:
+        # the record-creation instant is an input: every third run keeps the real clock, the others are pinned to a boundary instant
+        if instant_us == -1:
+            run_no[0] += 1
+            instant_us = None if run_no[0] % 3 == 0 else BOUNDARY_US[run_no[0] % len(BOUNDARY_US)]
+        res = drv.run_history(kind, cfg, debug, cap, items, None if instant_us is None else instant_us / 1e6)
+        for raw in res["raw"]:
+            templates.setdefault(("error:" if getattr(raw, "status", "") == "error" else "ok:") + str(getattr(raw, "method_type", "")), raw)
         recs, reqs = res["records"], res["requests"]
         ctx.count("impl_runs", len(reqs))
         ctx.tally("transport", kind)
         ctx.tally("level", "DEBUG" if debug else "INFO")
         ctx.tally("cap", cap)
         ctx.tally("call_state_cache", (cfg or {}).get("c34_cache", "warm") if kind == "http" else "n/a")
-        repl_base = {"transport": kind, "http_cfg": cfg, "debug": debug, "formatter_cap": cap, "items": items}
+        repl_base = {"transport": kind, "http_cfg": cfg, "debug": debug, "formatter_cap": cap, "instant_us": instant_us, "items": items}
         tiny = bool(cfg and cfg.get("max_response_bytes") is not None)
         # ---- request list (what was dispatched) -----------------------------
         q_terms: list[str] = []
@@ -400,6 +430,8 @@ def run(ctx: Any, only: dict[str, Any] | None = None) -> None:
                     path = "/".join(str(p) for p in err.absolute_path)
                     if "'error_message' is a required property" in err.message:
                         key = "schema-invalid:error-record-without-error_message"
+                    elif path == "timestamp":
+                        key = "timestamp-not-schema-valid"
                     elif "'stream_id' is a required property" in err.message and rec.get("truncated") != "record_too_large":
                         key = "schema-invalid:stream-record-without-stream_id"
                     elif "'stream_id' is a required property" in err.message and rec.get("truncated") == "record_too_large":
@@ -470,7 +502,7 @@ def run(ctx: Any, only: dict[str, Any] | None = None) -> None:
     combos_full = [(False, 1 << 20), (True, 1 << 20), (True, 1100), (False, 300), (True, 300)]
     n_scen = len(histories) - n_rand
     if only is not None and "items" in only and "transport" in only:
-        one(only["transport"], only.get("http_cfg"), bool(only.get("debug")), int(only.get("formatter_cap", 1 << 20)), only["items"])
+        one(only["transport"], only.get("http_cfg"), bool(only.get("debug")), int(only.get("formatter_cap", 1 << 20)), only["items"], only.get("instant_us"))
         histories = []
     for hi, (fam, items) in enumerate(histories):
         kinds = ["http", "pipe"] if fam == "both" else [fam]
@@ -498,6 +530,63 @@ def run(ctx: Any, only: dict[str, Any] | None = None) -> None:
                         import traceback
 
                         ctx.obligation(f"harness:{kind}:{hi}", "correspondence", False, "".join(traceback.format_exception_only(type(e), e)) + traceback.format_exc()[-600:])
+    # ---- the record-creation instant as an input: sweep of instants x TZ through the real formatter ------------
+    import datetime as _dt
+    import os
+    import time as _time
+
+    ts_cases: dict[tuple[str, int], str] = {}
+    ts_meta: dict[tuple[str, int], dict[str, Any]] = {}
+    if templates and only is None:
+        micros = MICROS if ctx.tier != "quick" else [0, 499, 500, 999_000, 999_499, 999_500, 999_999]
+        secs = SECONDS if ctx.tier != "quick" else SECONDS[::2] + [SECONDS[-1]]
+        instants = [s * 1_000_000 + m for s in secs for m in micros]
+        instants += [ctx.rng.randrange(0, 4_102_444_800) * 1_000_000 + ctx.rng.randrange(0, 1_000_000) for _ in range(100 if ctx.tier == "quick" else 1500)]
+        instants += [ctx.rng.randrange(0, 4_102_444_800) * 1_000_000 + ctx.rng.randrange(999_400, 1_000_000) for _ in range(60 if ctx.tier == "quick" else 600)]
+        tmpl = list(templates.values())
+        saved_tz = os.environ.get("TZ")
+        try:
+            for tz in (TZS if ctx.tier != "quick" else TZS[:2]):
+                os.environ["TZ"] = tz
+                _time.tzset()
+                for n, t_us in enumerate(instants):
+                    created = t_us / 1e6
+                    _text, obj = drv.format_at(tmpl[n % len(tmpl)], created)
+                    ctx.count("timestamp_sweep_records")
+                    ctx.tally("tz", tz)
+                    ts = obj.get("timestamp")
+                    repl = {"instant_us": t_us, "created": repr(created), "TZ": tz, "timestamp": ts, "method": obj.get("method")}
+                    for err in validator.iter_errors(obj):
+                        path = "/".join(str(p) for p in err.absolute_path)
+                        if path == "timestamp":
+                            ctx.violation("timestamp-not-schema-valid", f"timestamp {ts!r} fails the schema pattern: {err.message[:120]}", repl)
+                        else:
+                            ctx.violation(f"schema-invalid:{path or 'root'}:{err.validator}", f"re-stamped record fails access_log.schema.json: {err.message[:160]}", repl)
+                    d = _dt.datetime.fromtimestamp(created, tz=_dt.timezone.utc)
+                    if d.microsecond != t_us % 1_000_000:
+                        ctx.count("instants_whose_float_rounds_to_another_microsecond")
+                    pre = f"{d.year:04d}-{d.month:02d}-{d.day:02d}T{d.hour:02d}:{d.minute:02d}:{d.second:02d}"
+                    k = (pre, d.microsecond)
+                    if isinstance(ts, str):
+                        if k in ts_cases and ts_cases[k] != ts:
+                            ctx.violation("timestamp-depends-on-TZ", f"one instant rendered {ts_cases[k]!r} and {ts!r} under different TZ", repl)
+                        ts_cases.setdefault(k, ts)
+                        ts_meta.setdefault(k, repl)
+                    ctx.case(["ts", t_us, tz], nontrivial=True)
+        finally:
+            if saved_tz is None:
+                os.environ.pop("TZ", None)
+            else:
+                os.environ["TZ"] = saved_tz
+            _time.tzset()
+        tkeys = list(ts_cases)
+        tcases = [(f"({_s(pre)}, {micro}%N)", _s(ts_cases[(pre, micro)])) for pre, micro in tkeys]
+        tok, tbad, tlog = ctx.coq_mismatches(HDR, "ts_case", "bytes_eqb", tcases, "list N * N", "list N", shard=300)
+        ctx.count("timestamp_model_cases", len(tcases))
+        ctx.obligation("correspondence:M_AccessLog.ts_case", "correspondence", tok and not tbad, (tlog.strip() or "case shard not evaluated") if not tok else f"{len(tbad)} of {len(tcases)} instants disagree")
+        for i in tbad[:3]:
+            ctx.violation("model-impl-disagree:timestamp", "formatTime and render_ts differ", {**ts_meta[tkeys[i]], "utc_prefix": tkeys[i][0], "microsecond": tkeys[i][1]})
+    ctx.sample({"instant_us": 1704067199999500, "expected": "timestamp 2023-12-31T23:59:59.999Z (three fractional digits)"})
     ctx.sample({"transport": "http", "item": ["script", {"result": {"raise": ["ValueError", ""]}}, ["unary", 0]], "expected": "one record, status=error, non-empty error_message"})
     ctx.sample({"transport": "http", "item": "producer stream, step 1 raises RuntimeError('p'*700)", "expected": "init record ok, continuation record error with the 700-character message, same stream_id"})
 
@@ -524,4 +613,5 @@ def run(ctx: Any, only: dict[str, Any] | None = None) -> None:
         "uuid4().hex yields 32 lower-case hex digits and base64.b64encode yields RFC 4648 text (premises [sid_ok] / [env_ok] of C34_schema_valid; checked by jsonschema on every captured record)",
         "the socket family is represented by the in-memory pipe transport (serve_one is shared); implementation faults on sockets are C04's subject",
         "continuation requests can only name streams whose /init the server answered (sealed tokens: C12 / C13)",
+        "datetime.fromtimestamp(.., UTC) / strftime yield the UTC calendar fields as 4+2+2 2:2:2 digits (premise of C34_timestamp_valid; corresponded on the sweep, years 1970-9999)",
     ]
